@@ -207,6 +207,10 @@ impl Chunk {
     /// Optimize bytecode by combining common instruction patterns to avoid pushing/popping
     /// so much on the stack in the VM when we can
     pub(crate) fn optimize(&mut self) {
+        #[cfg(feature = "verif_hooks")]
+        if crate::verif_hooks::skip_optimize() {
+            return;
+        }
         let mut old_instructions = std::mem::take(&mut self.instructions);
         let mut optimized = Vec::with_capacity(old_instructions.len());
         // Map from old instruction index to new instruction index
@@ -329,6 +333,23 @@ impl Chunk {
         }
 
         self.instructions = optimized;
+    }
+}
+
+#[cfg(feature = "verif_hooks")]
+impl Chunk {
+    /// One line per instruction: `Debug` of the instruction, then its spans
+    pub(crate) fn verif_dump(&self) -> Vec<String> {
+        self.instructions
+            .iter()
+            .map(|(instr, spans)| {
+                let mut line = format!("{instr:?}");
+                for s in spans {
+                    line.push_str(&format!("{s:?}"));
+                }
+                line
+            })
+            .collect()
     }
 }
 
